@@ -11,5 +11,5 @@ CONSTANTS
  UseMutex = TRUE
  FreshPH = TRUE
 SPECIFICATION Spec
-INVARIANTS NoViol Glue Quiescent LayoutGlue WellFormed GetStable HeadStable
+INVARIANTS NoViol Glue Quiescent LayoutGlue WellFormed CacheCoherent GetStable HeadStable
 CHECK_DEADLOCK FALSE
